@@ -101,7 +101,23 @@ def run_one(sc):
     ascii_only = all(ord(ch) < 128 for ch in text)
     exp = expect(c)
     plain = {'scheme': 'http', 'host': 'h2', 'port': 'def', 'path': 'a', 'creds': False}
-    if use == 'referer':
+    if use == 'referer307':
+        # the referring page (with user-info) is on the SAME host as the URL fetched, which answers with a replaying
+        # redirect to another host: the copied request must not carry the credentials along in Referer
+        from wpull.url import URLInfo
+        from drivers.websession import expected
+        same = {'scheme': 'http', 'host': 'h1', 'port': 'def', 'path': 'a', 'creds': False}
+        script = {'start': same, 'maxred': 3, 'steps': [{'status': 307, 'loc': plain}, {'status': 200}]}
+        try:
+            parent = URLInfo.parse(text).url
+        except ValueError:
+            parent = None
+        if parent is None:
+            ev, outcome = [{'e': 'outcome', 'v': 'error', 'detail': 'rejected'}], 'rejected'
+        else:
+            ev, outcome = X.run_script(script, referer_text=parent)
+        exps = [expected(same), expected(plain)]
+    elif use == 'referer':
         # the text is the URL of the page that linked to a URL on ANOTHER host: what the processor puts into Referer
         script = {'start': plain, 'steps': [{'status': 200}], 'maxred': 3}
         from wpull.url import URLInfo
@@ -187,10 +203,10 @@ def run_text_cases(chk, quick):
     runs = []
     for c in cases:
         text = render(c)
-        for use in ('start', 'loc302', 'loc307', 'referer', 'loc302p', 'loc307p'):
+        for use in ('start', 'loc302', 'loc307', 'referer', 'referer307', 'loc302p', 'loc307p'):
             if use.endswith('p') and (c['ui'] != 'none' or c['host'] not in ('plain', 'upper', 'pctcrlf', 'pcttab') or c['port'] == 'other'):
                 continue        # through a plain HTTP proxy (absolute-form target): URLs without user-info on the known host
-            if use == 'referer' and (c['ui'] == 'none' or c['host'] != 'plain' or c['port'] == 'xdef'):
+            if use in ('referer', 'referer307') and (c['ui'] == 'none' or c['host'] != 'plain' or c['port'] not in ('none', 'default')):
                 continue        # as a referring page: the URLs with user-info, on the ordinary host
             if use != 'start' and any(ord(ch) >= 128 for ch in text):
                 continue        # a Location field is ASCII; non-ASCII forms are only used as start URLs
